@@ -3,7 +3,7 @@
 # (a scratch worktree of /repo + a copy of /verif), so /repo and /verif stay free for other work.
 #   tools/lane.sh sync            refresh the lane's copy of tv/, known-findings.json, seeded/ and reset its repo to /repo's HEAD
 #   tools/lane.sh run [tags...]   apply each seed in the lane's repo, run its property's quick check, undo; one line per seed
-L=/tmp/lane
+L=${LANE:-/tmp/lane}
 export VERIF_REPO=$L/repo
 case "$1" in
  sync)
